@@ -6,6 +6,8 @@
 // model serializer, and (b) parsed by the real NewFileFromPartReader and walked to
 // the end; the walked tree is compared in Coq with the model parser and with the
 // round-trip specification.
+// File contents sit behind different reader kinds (incl. readers that return their last bytes together with
+// io.EOF); half of the trees take a second hop: the parsed directory itself is re-serialized and parsed again.
 // CParse cases: hand-made (hostile) part sequences are parsed by the real code and
 // compared with the model parser.
 package c39
@@ -445,7 +447,13 @@ func serializeAndCheck(t *testing.T, e *vh.Env, cs *vh.Cases, st *vh.Stats, es [
 	stream = drain(t, mfr, bufSize, tag)
 	boundary = mfr.Boundary()
 	raws := rawParts(t, stream, boundary)
-	rp := map[string]any{"kind": "tree", "hop": hop, "form": form, "tree": entriesCoq(es), "readers": readersOf(es, nil),
+	readers := readersOf(es, nil)
+	if hop == "hop2" {
+		for i := range readers {
+			readers[i] = "multipart.Part" // the file nodes of a parsed directory read straight from the multipart body
+		}
+	}
+	rp := map[string]any{"kind": "tree", "hop": hop, "form": form, "tree": entriesCoq(es), "readers": readers,
 		"read_buffer": bufSize, "from": tag}
 	out, bad, fail := parseAndWalk(t, stream, boundary)
 	if fail != "" {
@@ -455,12 +463,12 @@ func serializeAndCheck(t *testing.T, e *vh.Env, cs *vh.Cases, st *vh.Stats, es [
 	term := "(CTree " + vh.Bool(form) + " " + entriesCoq(es) + " " + vh.List(raws) + " " + entriesCoq(out) + " " + vh.Bool(bad) + ")"
 	cs.Add(term, rp)
 	nparts, depth, metas := shape(es, 1)
-	st.Case(fmt.Sprintf("T%s|%v|%s|%v", hop, form, entriesCoq(es), readersOf(es, nil)), nparts >= 2 && (metas > 0 || !form))
+	st.Case(fmt.Sprintf("T%s|%v|%s|%v", hop, form, entriesCoq(es), readers), nparts >= 2 && (metas > 0 || !form))
 	st.Count("tree/" + hop + "/" + map[bool]string{true: "form", false: "attachment"}[form])
 	st.Count(fmt.Sprintf("tree/depth=%d", depth))
 	st.Count(fmt.Sprintf("tree/parts=%s", bucket(nparts)))
 	st.Count(fmt.Sprintf("read-buffer=%d", bufSize))
-	for _, k := range readersOf(es, nil) {
+	for _, k := range readers {
 		st.Count("file-reader/" + hop + "/" + k)
 	}
 	st.Sample(rp, 3)
